@@ -130,6 +130,11 @@ pub fn run(rep: &mut Rep) {
             }
         }
     }
+    // 1c. the handshakes of publishes carried into a resumed connection
+    {
+        let mut ridx = 30_000_000u64;
+        super::c05::resumed_connection(rep, &mut ridx);
+    }
     // 2. bounded-exhaustive interleavings
     let a = Alpha {
         kinds: vec![Kind::Pub0, Kind::Pub1, Kind::Pub2, Kind::Ping],
